@@ -97,7 +97,9 @@ def shift_spec(b, c):
 
 def dbl(b):
     """RFC 4493 2.3 step 2/3: (b << 1) if MSB(b) == 0 else (b << 1) XOR const_Rb, on 128-bit strings"""
-    return shift_spec(b, ite(at(b, 0) >= 128, 0x87, 0))
+    if at(b, 0) >= 128:
+        return shift_spec(b, 0x87)
+    return shift_spec(b, 0)
 
 
 def cmac_rfc(k, m):
